@@ -19,6 +19,7 @@ import (
 	"runtime/debug"
 	"strconv"
 	"strings"
+	"sync"
 	"syscall"
 	"testing"
 	"time"
@@ -210,14 +211,21 @@ func w13Supervise(t *testing.T, test string) bool {
 		}
 		skip += started
 	}
-	if unattributed > 0 {
-		// a goroutine of the server died and no recent case reproduces it: never a verdict
-		fmt.Printf("VERIF-INCONCLUSIVE C13 %d death(s) of a server goroutine could not be attributed to a case (reports in $VERIF_FAILDIR/%s.unattributed-*.json, printed above)\n", unattributed, test)
+	if unattributed > w13MaxAnomalies {
+		// this many deaths that nothing reproduces are systematic: never a verdict
+		fmt.Printf("VERIF-INCONCLUSIVE C13 %d deaths of a server goroutine that no recent case reproduces (reports in $VERIF_FAILDIR/C13.anomaly-*.json, printed above)\n", unattributed)
 		vFlush()
 		os.Exit(3)
 	}
 	return true
 }
+
+// A death of a goroutine that the server started itself which none of the last 8 cases reproduces in
+// isolation (each tried up to 3 times) is an "unreproduced anomaly": counted, reported (VERIF-ANOMALY
+// line, $VERIF_FAILDIR/C13.anomaly-<pid>-<n>.json with key, stack and the 8 cases), not judged; a new
+// child runs the rest of the budget and the shard ends normally. A death that a saved case reproduces
+// is a violation with that case as replay.
+const w13MaxAnomalies = 5
 
 // w13SuperviseOnce runs one child. again = the child died of something that could not be attributed and
 // the rest of the budget should be run by a new child; started = cases the dead child had started.
@@ -302,25 +310,50 @@ func w13SuperviseOnce(t *testing.T, test string, skip int, unattributed *int) (a
 	}
 	// a goroutine the server started on its own (sweep, executor, AOF channel): it may act on what an
 	// earlier case left behind, so the last cases are tried one by one in isolated processes, newest first
-	for i := len(fl.Recent) - 1; i >= 0; i-- {
-		rep, rkey, _ := w13ReplayIsolatedLinger(fl.Recent[i], 3500)
-		if rep {
-			note := fmt.Sprintf("case %d before the end of the child reproduces the crash in an isolated process", len(fl.Recent)-1-i)
-			if rkey != key {
-				note += " (as " + rkey + ")"
+	artefact := w13GlobalSwapArtefact(head, stack)
+	for try := 1; try <= 3 && !artefact; try++ {
+		// the isolated children of one round run side by side (each lingers 3.5 s)
+		reps, rkeys := make([]bool, len(fl.Recent)), make([]string, len(fl.Recent))
+		var wg sync.WaitGroup
+		for i := range fl.Recent {
+			wg.Add(1)
+			go func(i int) {
+				defer wg.Done()
+				reps[i], rkeys[i], _ = w13ReplayIsolatedLinger(fl.Recent[i], 3500)
+			}(i)
+		}
+		wg.Wait()
+		for i := len(fl.Recent) - 1; i >= 0; i-- {
+			rep, rkey := reps[i], rkeys[i]
+			if rep {
+				note := fmt.Sprintf("case %d before the end of the child reproduces the crash in an isolated process (try %d)", len(fl.Recent)-1-i, try)
+				if rkey != key {
+					note += " (as " + rkey + ")"
+				}
+				vFail(t, test, key, fl.Recent[i], "a goroutine of the server crashed the process: %s; %s\n%s", head, note, w13Head(stack, 30))
+				return false, 0
 			}
-			vFail(t, test, key, fl.Recent[i], "a goroutine of the server crashed the process: %s; %s\n%s", head, note, w13Head(stack, 30))
-			return false, 0
 		}
 	}
 	*unattributed++
 	rep := map[string]interface{}{"test": test, "key": key, "message": head + "\n" + w13Head(stack, 60), "recent": fl.Recent}
 	if rb, merr := json.MarshalIndent(rep, "", " "); merr == nil {
-		_ = os.WriteFile(filepath.Join(faildir, fmt.Sprintf("%s.unattributed-%d.json", test, *unattributed)), rb, 0644)
+		_ = os.WriteFile(filepath.Join(faildir, fmt.Sprintf("C13.anomaly-%d-%d.json", os.Getpid(), *unattributed)), rb, 0644)
 	}
-	fmt.Printf("VERIF-NOTE C13 unattributed death of a server goroutine (%s): %s; none of the last %d cases reproduces it in isolation\n%s\n", key, head, len(fl.Recent), w13Head(stack, 30))
-	vstat(test).Class("death of a server goroutine that no recent case reproduces (not judged)", 1)
-	return *unattributed < 3, fl.Started
+	if artefact {
+		fmt.Printf("VERIF-ANOMALY C13 harness artefact (%s): %s in ProxyServerProtocol.ProcessLockResultCommandLocked: a sweep of the previous instance read the package global defaultServerProtocol while the next instance replaced it; not judged, the shard continues\n", key, head)
+		vstat(test).Class("anomaly: harness artefact, global defaultServerProtocol replaced under a sweep of the previous instance (not judged)", 1)
+	} else {
+		fmt.Printf("VERIF-ANOMALY C13 unreproduced death of a server goroutine (%s): %s; none of the last %d cases reproduces it in isolation (3 tries each); not judged, the shard continues\n%s\n", key, head, len(fl.Recent), w13Head(stack, 30))
+		vstat(test).Class("unreproduced anomaly: death of a server goroutine that no recent case reproduces (not judged)", 1)
+	}
+	return *unattributed <= w13MaxAnomalies, fl.Started
+}
+
+// w13GlobalSwapArtefact: the one process death that is known to be caused by the harness itself (several
+// SLock instances per process, see w13NextInstance).
+func w13GlobalSwapArtefact(head, stack string) bool {
+	return strings.Contains(head, "unlock of unlocked mutex") && strings.Contains(stack, "(*ProxyServerProtocol).ProcessLockResultCommandLocked")
 }
 
 var w13MallocRe = regexp.MustCompile(`runtime\.(?:mallocgc|makeslice|growslice)\((0x[0-9a-f]+)`)
